@@ -15,6 +15,16 @@ func main() {
 		cmdTables(os.Args[2:])
 	case "gen":
 		cmdGen(os.Args[2:])
+	case "oracle":
+		cmdOracle(os.Args[2:])
+	case "audit":
+		cmdAudit(os.Args[2:])
+	case "history":
+		cmdHistory(os.Args[2:])
+	case "timing":
+		cmdTiming(os.Args[2:])
+	case "tablecheck":
+		cmdTableCheck(os.Args[2:])
 	default:
 		fmt.Fprintln(os.Stderr, "unknown command", os.Args[1])
 		os.Exit(2)
